@@ -484,7 +484,7 @@ def run(chk):
 META = {
     "category": "proof",
     "engine": "FOLD",
-    "technique": "static constant folding of the literal Butcher tableaux to exact rationals + exhaustive discharge of rooted-tree order conditions",
+    "technique": "exact abstract interpretation of get_tableau / runge_kutta_ti_coefficient / TaylorExpansion on rational arrays with view semantics + exhaustive discharge of rooted-tree order conditions",
     "text": "All ten literal tableaux are partially evaluated from the source of RungeKutta.get_tableau (no code of /repo is run), folded to "
             "exact rationals, and every Butcher order condition up to the advertised order of every weight row (94 conditions), row sums, "
             "strict lower triangularity, shapes, tall-tree 1/k! identities and the Taylor table are discharged as exact equalities. The "
@@ -492,5 +492,5 @@ META = {
     "note": "Trusted: the constant folder (decimal-literal semantics, np.array/astype/reshape on literal lists), the rooted-tree generator "
             "(counts re-checked), Fraction arithmetic. Not covered: float rounding of literals; the numeric recursion in "
             "runge_kutta_ti_coefficient (its input/outputs are what test_rk pins).",
-    "design_ref": "DESIGN.md 3.10, 4 (C19)",
+    "design_ref": "DESIGN.md 3.10, 4 (C19); as built: 9.1, 9.3, 9.8",
 }
